@@ -3,9 +3,9 @@ import AwModel.Basic
 /-!
 # Row codecs of the file backends (C01)
 
-* sqlite (after the repair of F9): `starttime`/`endtime` are exact integer microseconds; reading
-  goes through `datetime.fromtimestamp(v / 1000000, utc)` (`Fl.decF`), `endtime - starttime`, and
-  the `Event` constructor's millisecond floor.
+* sqlite (after the repairs F9 and F24): `starttime`/`endtime` are exact integer microseconds, read
+  back as `epoch + starttime µs` and `(endtime - starttime) µs` (integer arithmetic; no double is
+  involved any more), then the `Event` constructor's millisecond floor.
 * peewee: the timestamp text round trip is trusted to be the identity on ms-aligned UTC instants;
   the duration is stored as the double `total_seconds()` and read back through
   `timedelta(seconds=float)`.
@@ -17,9 +17,7 @@ def floorMs (t : Int) : Int := t - t % 1000
 
 /-- what `_rows_to_events` makes of a sqlite row `(id, starttime, endtime, data)` -/
 def sqliteDecode {D} (e : Ev D) : Ev D :=
-  let s := Fl.decF e.ts
-  let z := Fl.decF (e.ts + e.dur)
-  { e with ts := floorMs s, dur := z - s }
+  { e with ts := floorMs e.ts, dur := (e.ts + e.dur) - e.ts }
 
 /-- duration written by peewee and read back -/
 def peeweeDur (d : Int) : Int := Fl.tdOfSeconds (Fl.totalSeconds d)
